@@ -120,10 +120,10 @@ def run(ctx):
     def with_extras(cfgname):
         txt = open(os.path.join(vlib.SPEC, FAMILY, cfgname)).read()
         if extras:
-            txt = txt.replace('"sf"}', '"sf", ' + ", ".join('"%s"' % k for k in sorted(extras)) + "}", 1)
+            txt = txt.replace('"exta"}', '"exta", ' + ", ".join('"%s"' % k for k in sorted(extras)) + "}", 1)
         return txt
     cases = os.path.join(ctx.tmp, "hist.jsonl")
-    plan = [("ConfigRedact.cfg", None), ("ConfigRedact_d3.cfg", 900)] if q else [("ConfigRedact_d3.cfg", None), ("ConfigRedact_thorough.cfg", 6000)]
+    plan = [("ConfigRedact.cfg", None), ("ConfigRedact_d3.cfg", 300)] if q else [("ConfigRedact.cfg", None), ("ConfigRedact_d3.cfg", 12000)]
     seen, sampled = set(), False
     with open(cases, "w") as fo:
         for cfg, cap in plan:
@@ -137,7 +137,10 @@ def run(ctx):
             for ln in lines:
                 seen.add(ln)
                 fo.write(ln + "\n")
-    for d in ("ConfigRedact_defect1.cfg", "ConfigRedact_defect2.cfg"):
+    if not q:   # deeper histories, model only (ArrayLen = 2)
+        ctx.add_tlc(vlib.run_tlc(ctx, FAMILY, "ConfigRedact", "ConfigRedact_thorough.cfg", timeout=1500,
+                                 cfg_text=with_extras("ConfigRedact_thorough.cfg")))
+    for d in ("ConfigRedact_defect1.cfg", "ConfigRedact_defect2.cfg", "ConfigRedact_defect3.cfg"):
         if vlib.run_tlc(ctx, FAMILY, "ConfigRedact", d, expect_ok=False)["ok"]:
             raise vlib.Inconclusive("ConfigRedact model does not reject " + d)
 
@@ -183,15 +186,17 @@ def run(ctx):
     ctx.cov["trace_events"] = len(evs)
     for e in evs[:6]:
         ctx.sample({k: e[k] for k in e if k != "handshake_msg"})
-    ctx.cov["rule"] = ("every operation history of length MaxOps ending in a dump over Place(6 positions: listener tls_context, listener "
-                       "tls_context_set, cluster, cluster manager, extends (tunnel agent), untyped stream-filter config) and "
-                       "Dump(8 endpoints/parameters), from an initial file with keys at no position / at every position (either chain "
-                       "form), enumerated by TLC; each replayed on a real MOSN; a case is one history, an evaluation one admin response "
+    ctx.cov["rule"] = ("every operation history of length MaxOps ending in a dump over Place(8 positions: listener tls_context, listener "
+                       "tls_context_set, cluster, cluster manager, extends (tunnel agent), untyped stream-filter config, a 3-element "
+                       "context list inside an untyped network-filter config and a 3-element server list inside an extend, the "
+                       "array positions with every subset of elements carrying an inline key) and Dump(8 endpoints/parameters), from an "
+                       "initial file with keys nowhere / everywhere (either chain form) / arrays keyed in the first element only, "
+                       "enumerated by TLC; each replayed on a real MOSN; a case is one history, an evaluation one admin response "
                        "searched for every key ever configured" + ("; longer histories sampled by VERIF_SEED" if sampled else ""))
     ctx.cov["exhaustive"] = not sampled
     ctx.assumptions += [
-        "positions = typed TLSConfig positions of the reflected type graph + the tunnel agent's typed extend + one untyped filter "
-        "configuration; a new TLSConfig-typed struct field or graph position makes the check inconclusive until it is modelled",
+        "positions = typed TLSConfig positions of the reflected type graph + the tunnel agent's typed extend + untyped filter "
+        "configurations (single context, list of contexts) + an extend with a list of servers; a new TLSConfig-typed struct field or graph position makes the check inconclusive until it is modelled",
         "keys are searched by a 40-character piece of their base64 body (no escaping can split it)",
         "listeners are registered, not bound: runtime listener updates take the update path of the real connection handler",
     ]
